@@ -14,6 +14,12 @@
 // recorder, and every collection / partition the plan created has been started / added or offered to the consumers
 // subscribed at that moment (observed through the tasks' selection functions).  The barrier only makes the replay
 // follow the plan's delivery order; a barrier that gives up (bounded wait) leaves a trace that is still a legal run.
+// A stall "d hold c i" ... "d release" keeps the collection watch goroutine of the shared EtcdOp BUSY: the recording
+// channel manager holds the AddDroppedCollection call that the consumer callback of the failing create of (c, i) makes
+// from the watch goroutine (gate, armed by "hold", entered when the plan's next write - the "fail" of (c, i) - has been
+// dispatched: the driver waits for that signal and logs "d stalled").  Catalog writes that follow are received by the
+// watch but not dispatched while the last task goes on with its steps (its listings included); "release" lets the call
+// return and then waits, like "sync", until the watch has handled what queued up.  Nothing of this carries contract content.
 // Every write, reader step (with the listing's result) and manager call is appended to one log under one mutex.
 //
 // Watch delivery is asynchronous.  At the end the driver waits on explicit signals: it writes a sentinel collection
@@ -81,6 +87,16 @@ type world struct {
 	offerP   map[string]map[int64]int // task -> collection id -> times its selection was asked on behalf of a partition
 	subC     map[string]bool          // tasks whose collection consumer is registered
 	subP     map[string]bool          // tasks whose partition consumer is registered
+	gate     *gateT                   // armed / entered hold of an AddDroppedCollection call (nil: none)
+}
+
+// gateT: one AddDroppedCollection call naming cid is kept from returning until release is closed
+type gateT struct {
+	cid      int64
+	entered  chan struct{} // closed when the call has arrived (and is logged)
+	release  chan struct{} // closed by "release" (or at the end of the plan)
+	in       bool
+	released bool
 }
 
 func (w *world) offered(task string, info *pb.CollectionInfo) {
@@ -197,8 +213,22 @@ func (m *recMgr) idList(ids []int64) []hx.Event {
 
 func (m *recMgr) AddDroppedCollection(ids []int64) {
 	m.w.mu.Lock()
-	defer m.w.mu.Unlock()
+	// logged when the call is made: the manager has been told, whenever the call returns
 	m.w.log = append(m.w.log, hx.Event{"op": "dropc", "task": "", "c": "", "i": 0, "ids": m.idList(ids)})
+	var g *gateT
+	if m.w.gate != nil && !m.w.gate.in {
+		for _, x := range ids {
+			if x == m.w.gate.cid {
+				g = m.w.gate
+				g.in = true
+				close(g.entered)
+			}
+		}
+	}
+	m.w.mu.Unlock()
+	if g != nil {
+		<-g.release // the caller (as built: the collection watch goroutine) is busy until the plan releases it
+	}
 }
 
 func (m *recMgr) AddDroppedPartition(ids []int64) {
@@ -230,6 +260,7 @@ type scenario struct {
 	nsync  int
 	pendC  map[ident]pendT // created collections whose watch event a barrier has not yet seen handled
 	pendP  map[ident]pendT // created partitions, likewise
+	stalled bool // the armed call has arrived and is being held
 }
 
 // pendT: the counters at the time of the write
@@ -275,7 +306,9 @@ func (s *scenario) sync() {
 	s.cw.PutFields(scid)
 	s.cw.PutCollection(catalog.Collection{DbID: 1, ID: scid, Name: fmt.Sprintf("%ss%d", sentinelPrefix, s.nsync), State: pb.CollectionState_CollectionCreated,
 		CreateTime: catalog.HybridTs(90), Shards: 1})
-	ok := waitCh(sch, 10*time.Second)
+	// while the collection watch goroutine is held inside a callback the barrier concerns the partition watch only
+	stalled := s.stalled
+	ok := stalled || waitCh(sch, 10*time.Second)
 	if ok {
 		s.cw.PutPartition(catalog.Partition{CollID: scid, ID: spid, Name: "ps", State: pb.PartitionState_PartitionCreated, CreateTime: catalog.HybridTs(91)})
 		ok = waitCh(pch, 10*time.Second)
@@ -285,6 +318,9 @@ func (s *scenario) sync() {
 	for ok {
 		w.mu.Lock()
 		for id, p := range s.pendC {
+			if stalled {
+				break
+			}
 			cid := w.collID(id)
 			if s.cstate[id] == "tombstone" || handled(p, w.startCnt, w.offerC, cid, cid) {
 				delete(s.pendC, id)
@@ -297,6 +333,9 @@ func (s *scenario) sync() {
 			}
 		}
 		n := len(s.pendC) + len(s.pendP)
+		if stalled {
+			n = len(s.pendP)
+		}
 		w.mu.Unlock()
 		if n == 0 {
 			break
@@ -307,7 +346,10 @@ func (s *scenario) sync() {
 		}
 		time.Sleep(time.Millisecond)
 	}
-	s.pendC, s.pendP = map[ident]pendT{}, map[ident]pendT{}
+	if !stalled {
+		s.pendC = map[ident]pendT{}
+	}
+	s.pendP = map[ident]pendT{}
 	kind := "sync"
 	if !ok {
 		kind = "sync-gaveup"
@@ -320,6 +362,64 @@ func (s *scenario) step(st map[string]interface{}) {
 	case "w":
 		s.write(hx.S(st, "kind"), ident{hx.S(st, "c"), hx.I(st, "i")})
 	case "d":
+		switch hx.S(st, "kind") {
+		case "hold":
+			s.hold(ident{hx.S(st, "c"), hx.I(st, "i")})
+		case "release":
+			s.release(true)
+		default:
+			s.sync()
+		}
+	}
+}
+
+// hold arms the gate: the AddDroppedCollection call for this collection will not return until "release".
+func (s *scenario) hold(id ident) {
+	w := s.w
+	w.mu.Lock()
+	if w.gate == nil {
+		w.gate = &gateT{cid: w.collID(id), entered: make(chan struct{}), release: make(chan struct{})}
+	}
+	w.mu.Unlock()
+	w.add(hx.Event{"op": "d", "kind": "hold", "task": "", "c": id.c, "i": id.i, "ids": []hx.Event{}})
+}
+
+// afterFail: the failing create of the armed collection has been written - wait until its consumer callback is inside the
+// held call (explicit signal).  If it never arrives (nobody subscribed, or the code makes the call elsewhere) the replay
+// goes on without a stall: still a legal run.
+func (s *scenario) afterFail(id ident) {
+	w := s.w
+	w.mu.Lock()
+	g := w.gate
+	w.mu.Unlock()
+	if g == nil || g.released || g.cid != w.collID(id) {
+		return
+	}
+	kind := "stalled"
+	if waitCh(g.entered, 10*time.Second) {
+		s.stalled = true
+	} else {
+		kind = "stall-gaveup"
+	}
+	w.add(hx.Event{"op": "d", "kind": kind, "task": "", "c": id.c, "i": id.i, "ids": []hx.Event{}})
+}
+
+// release lets the held call return; barrier: then wait until the watch has handled what queued up behind it.
+func (s *scenario) release(barrier bool) {
+	w := s.w
+	w.mu.Lock()
+	g := w.gate
+	if g == nil || g.released {
+		w.mu.Unlock()
+		return
+	}
+	g.released = true
+	w.log = append(w.log, hx.Event{"op": "d", "kind": "release", "task": "", "c": "", "i": 0, "ids": []hx.Event{}})
+	close(g.release)
+	w.mu.Unlock()
+	was := s.stalled
+	s.stalled = false
+	if barrier && was {
 		s.sync()
 	}
 }
@@ -387,6 +487,9 @@ func (s *scenario) write(kind string, id ident) {
 	case "fail", "gc":
 		s.tombColl(id)
 		s.cstate[id] = "tombstone"
+		if kind == "fail" {
+			s.afterFail(id)
+		}
 	case "drop":
 		s.putColl(id, "dropping")
 		s.cstate[id] = "dropping"
@@ -701,7 +804,8 @@ func runPlan(srv *catalog.Server, p *hx.Plan, n int) []hx.Event {
 		r.StartRead(ctx)
 		sc.cur = ""
 	}
-	sc.rest() // writes after the last task's startw
+	sc.rest()         // writes after the last task's startw
+	sc.release(false) // a call still held is released before the quiescence protocol
 
 	// ---- wait for quiescence on explicit signals
 	selectedBySome := func(c string) bool {
